@@ -41,7 +41,8 @@ def canon_state(st):
             "syms": sorted(tab["syms"], key=lambda x: (x["id"], json.dumps(x["key"]))),
             "tags": sorted(tab["tags"], key=lambda g: (g["tag"], g["id"])),
             "args": list(tab["args"])})
-    return {"tabs": tabs, "inner": st["inner"], "dead": sorted(st["dead"])}
+    return {"tabs": tabs, "inner": st["inner"], "dead": sorted(st["dead"]),
+            "calls": sorted(st.get("calls", []))}
 
 
 def skey(st):
@@ -85,7 +86,9 @@ class World:
         recs = [(t + 1, x) for t, tab in enumerate(state["tabs"])
                 for x in tab["syms"]]
         # symbol objects: containers first (imports refer to them)
+        # (and generic interfaces after the routines they list)
         for _, x in sorted(recs, key=lambda r: (r[1]["cls"] != "ContainerSymbol",
+                                                r[1]["cls"] == "GenericInterfaceSymbol",
                                                 r[1]["id"])):
             self.register(self.make(self.kind_of(x), name_str(x["name"]),
                                     x["dep"]), x["id"])
@@ -110,6 +113,13 @@ class World:
             t = state["inner"]
             self._build_step(record, {"name": "attach", "s": t},
                              lambda: self.tabs[t].attach(self.n3))
+        # Calls in the Routine's body (next to the loop, outside its body)
+        from psyclone.psyir.nodes import Call
+        from psyclone.psyir.symbols import RoutineSymbol
+        for i in sorted(state.get("calls", [])):
+            if not isinstance(self.sym.get(i), RoutineSymbol):
+                raise Unsupported("call target %s is not a RoutineSymbol" % i)
+            self.rout.addchild(Call.create(self.sym[i], []))
 
     def _build_step(self, record, op, call):
         if record is None:
@@ -163,6 +173,12 @@ class World:
             return ContainerSymbol(name)
         if kind == "rout":
             return RoutineSymbol(name)
+        if kind == "generic":
+            from psyclone.psyir.symbols import GenericInterfaceSymbol
+            if type(self.sym.get(dep)) is not RoutineSymbol:
+                raise Unsupported("interface member %s is not a RoutineSymbol "
+                                  "in the real tables" % dep)
+            return GenericInterfaceSymbol(name, [(self.sym[dep], True)])
         raise Unsupported("kind " + kind)
 
     # ------------------------------------------------------------ projection
@@ -182,6 +198,8 @@ class World:
                 dep = 0
                 if ifc == "ImportInterface":
                     dep = self.id_of(obj.interface.container_symbol)
+                if type(obj).__name__ == "GenericInterfaceSymbol" and obj.routines:
+                    dep = self.id_of(obj.routines[0].symbol)
                 syms.append({"id": self.id_of(obj), "key": name_rec(key),
                              "name": name_rec(obj.name),
                              "cls": type(obj).__name__,
@@ -203,7 +221,12 @@ class World:
                 inner = 9
         if at_n3 is not None and inner == 0:
             inner = 9
-        return canon_state({"tabs": tabs, "inner": inner, "dead": list(self.dead)})
+        from psyclone.psyir.nodes import Call
+        live = {x["id"] for tab in tabs for x in tab["syms"]}
+        calls = {self.id_of(c.routine.symbol) for c in self.rout.children
+                 if isinstance(c, Call)} & live
+        return canon_state({"tabs": tabs, "inner": inner, "dead": list(self.dead),
+                            "calls": list(calls)})
 
     def fresh_id(self, pre):
         used = {x["id"] for tab in pre["tabs"] for x in tab["syms"]}
@@ -312,5 +335,6 @@ class World:
 KINDS = {"gen": ("Symbol", "auto"), "data": ("DataSymbol", "auto"),
          "arg": ("DataSymbol", "arg"), "imp": ("DataSymbol", "imp"),
          "unres": ("DataSymbol", "unres"), "cont": ("ContainerSymbol", "mod"),
-         "rout": ("RoutineSymbol", "auto")}
+         "rout": ("RoutineSymbol", "auto"),
+         "generic": ("GenericInterfaceSymbol", "auto")}
 PURE = ("lookup", "lookup_tag", "get_symbols", "next_name")
